@@ -1065,7 +1065,7 @@ func C19(p *Prog, r *Run) {
 		r.Floor("element stores of the series accessors", n, 10)
 	})
 
-	r.Rule("C19.10", "the best organism of a trial is the fittest champion of the generations asked for: Trial.BestOrganism collects, by a loop over every recorded generation, the champion of each generation (onlySolvers false) or of exactly the generations with Solved (onlySolvers true) into a slice that starts empty, reports (nil,false) only where that slice is empty, and otherwise sorts it in descending order (sort.Reverse) and returns its first element with true. If a generation is left out, or the emptiness test or the index is off, the per-trial best fitness / age / complexity series are not those of the fittest recorded champion", func() {
+	r.Rule("C19.10", "the best organism of a trial is the fittest champion of the generations asked for: Trial.BestOrganism collects, by a loop over every recorded generation, the champion (where one was recorded) of each generation (onlySolvers false) or of exactly the generations with Solved (onlySolvers true) into a slice that starts empty, reports (nil,false) only where that slice is empty, and otherwise sorts it in descending order (sort.Reverse) and returns its first element with true. If a generation is left out, or the emptiness test or the index is off, the per-trial best fitness / age / complexity series are not those of the fittest recorded champion", func() {
 		const gens = "recv.Generations"
 		fn := p.Func(PkgE, "Trial.BestOrganism")
 		r.Fn(FuncName(fn))
@@ -1207,7 +1207,19 @@ func C19(p *Prog, r *Run) {
 				}
 				sv := c19FieldOutcome(tm, ip.Conds, "Solved", gens, iv)
 				want := -1
+				// a generation recorded without champion has nothing to collect (rule C19.11 requires the test)
+				noChamp := false
+				for _, g := range ip.Conds {
+					if GuardNilness(g, func(x ssa.Value) bool {
+						t := tm.Of(x)
+						return t != nil && t.Op == "field" && t.Name == "Champion" && c19ElemOf(t, gens, iv)
+					}) == 1 {
+						noChamp = true
+					}
+				}
 				switch {
+				case noChamp:
+					want = 0
 				case os == -1, sv == 1:
 					want = 1 // every champion is wanted / a solved generation's champion is wanted in both modes
 				case os == 1 && sv == -1:
@@ -1475,6 +1487,7 @@ func C19(p *Prog, r *Run) {
 			r.Check(ok, a.fn, p.Pos(fn.Pos()), why, why)
 		}
 	})
+	c19NilChampion(p, r)
 }
 
 // constVal returns the exact string of an external package constant, or def
